@@ -177,6 +177,34 @@ def fcs_sweep_frames():
                 need -= hit
                 out.append(("sweep:" + ",".join(f"{p}={v:02x}" for p, v in sorted(hit)), fr))
     assert not need, sorted(need)[:5]
+    # whole check sequences with 'special' 16-bit values (0000 is falsy, FFFF, flag/escape pairs): search by brute force
+    targets = {0x0000, 0xFFFF, 0x7E7E, 0x7D7D, 0x7D7E, 0x7E7D, 0x0001, 0x0100}
+    from mc.ref.fcs import fcs16_fast
+    left = set(targets)
+    for a in range(1 << 21):  # header check sequence: search over destination address (2 octets) x control
+        if not left:
+            break
+        dest = bytes(((a >> 7) & 0xFE, ((a << 1) & 0xFF) | 1))
+        ctl = (a >> 15) & 0xFF
+        head = bytes((0xA0, 0x0E)) + dest + b"\x21" + bytes((ctl,))
+        f = fcs16_fast(head)
+        val = ((f & 0xFF) << 8) | (f >> 8)  # as the accessor reads it: first transmitted octet is the high byte
+        if val in left:
+            fr = RH.build_frame(0xA, 0, dest, b"\x21", ctl, b"\xe6\xe7\x00\x0f")
+            assert len(fr) == 14 and ((fr[6] << 8) | fr[7]) == val and RH.expected_valid(fr)
+            left.discard(val)
+            out.append((f"sweep:hcs={val:04x}", fr))
+    assert not left, left
+    left = set(targets)
+    for a in range(1 << 18):
+        if not left:
+            break
+        fr = RH.build_frame(0xA, 0, b"\x01", b"\x21", 0x13, bytes((a >> 16, (a >> 8) & 0xFF, a & 0xFF)))
+        val = (fr[-2] << 8) | fr[-1]
+        if val in left:
+            left.discard(val)
+            out.append((f"sweep:fcs={val:04x}", fr))
+    assert not left, left
     _SWEEP = out
     return out
 
